@@ -1377,6 +1377,32 @@ def check_path_tokens(facts, out):
                     'control point, `|` otherwise): a letter on the last or only control point would not end the path field'
                     % x.get('ln'))
     out.add('KT-K5', 'encode::add_path_data', 'letter-then-separator', 'src/encode.rs', okd, '' if okd else whyd, ordinal=False)
+    # (e) the length column: the declared (expected) distance when the path has one -- the fitted curve's length is not
+    # always that value (osu!stable's "no extension" rule keeps the shorter computed length), so writing the curve length
+    # changes what the decoder reads back as the expected distance
+    from hp import M as _M, OR as _OR
+    uses_expected, uses_curve_only = [], []
+    for ev in H.flat_write_events(facts, 'encode::add_path_data'):
+        if ev['kind'] != 'fmt':
+            continue
+        einits = H.event_inits(facts, ev)
+        for a in ev['args']:
+            exprs = [a]
+            pe = H.peel(a)
+            if pe.get('k') == 'local':
+                exprs += einits.get(pe['name'], [])
+            has_exp = any(_CONTAINS(_M('expected_dist', _ANY())).m(ctx2, x) for x in exprs if isinstance(x, dict))
+            has_cur = any(_CONTAINS(_M('dist', _ANY())).m(ctx2, x) for x in exprs if isinstance(x, dict))
+            if has_exp:
+                uses_expected.append(ev)
+            elif has_cur:
+                uses_curve_only.append(ev)
+    oke = bool(uses_expected) and not uses_curve_only
+    out.add('KT-K5', 'encode::add_path_data', 'length-is-the-declared-distance', 'src/encode.rs:%s' % (
+        (uses_curve_only or uses_expected or [{'ln': 0}])[0]['ln']), oke,
+        '' if oke else ('the slider length column is written from the computed curve length instead of the path\'s expected '
+                        'distance (falling back to the curve only when none is declared): the declared length does not '
+                        'survive encode -> decode for paths the curve fit leaves shorter'), ordinal=False)
 
 
 def check_sample_banks(facts, out):
